@@ -176,3 +176,52 @@ def self_state_writes(p, fn, include_init: bool = False):
                 if callee is not None and (include_init or callee.name != "__init__"):
                     todo.append(callee)
     return out, len(seen)
+
+
+def mutated_mutable_defaults(fn: FunctionInfo):
+    """(parameter name, default node, mutating node) for every parameter whose default is a mutable display / constructor call and
+    which the body changes in place (append/extend/..., `+=`, an element store) or hands back: the one default object is shared by
+    every call that omits the argument - state that survives from call to call inside a process."""
+    if fn.is_lambda:
+        return
+    from ..types import _iter_own_nodes
+    for prm in fn.params:
+        d = prm.default
+        if d is None:
+            continue
+        mutable = isinstance(d, (ast.List, ast.Dict, ast.Set, ast.ListComp, ast.DictComp, ast.SetComp)) or (
+            isinstance(d, ast.Call) and isinstance(d.func, ast.Name) and d.func.id in ("list", "dict", "set", "defaultdict", "deque",
+                                                                                    "OrderedDict", "Counter", "bytearray"))
+        if not mutable:
+            continue
+        rebound = any(isinstance(n, ast.Name) and n.id == prm.name and isinstance(n.ctx, ast.Store) for n in _iter_own_nodes(fn.node))
+        if rebound:
+            continue                 # `x = x or []` style: judged elsewhere if at all
+        for n in _iter_own_nodes(fn.node):
+            if isinstance(n, ast.Call) and isinstance(n.func, ast.Attribute) and n.func.attr in MUTATORS and \
+                    isinstance(n.func.value, ast.Name) and n.func.value.id == prm.name:
+                yield prm.name, d, n
+                break
+            if isinstance(n, ast.AugAssign) and isinstance(n.target, ast.Name) and n.target.id == prm.name:
+                yield prm.name, d, n
+                break
+            if isinstance(n, (ast.Assign, ast.AugAssign, ast.Delete)):
+                tg = n.targets if isinstance(n, (ast.Assign, ast.Delete)) else [n.target]
+                if any(isinstance(t, ast.Subscript) and isinstance(t.value, ast.Name) and t.value.id == prm.name for t in tg):
+                    yield prm.name, d, n
+                    break
+
+
+def default_is_used(ctx, fn: FunctionInfo, pname: str) -> bool:
+    """some call site of `fn` leaves parameter `pname` to its default (or the call sites cannot all be seen)"""
+    sites = [s0 for s0 in ctx.cg.sites_calling(fn) if not s0.caller.module.is_test]
+    if not sites or not fn.name.startswith("_"):
+        return True                   # public or never called in the repository: the default is part of the interface
+    for s0 in sites:
+        for c in s0.repo_callees():
+            if c.kind == "fn" and c.fn is fn:
+                params = c.params(ctx.p)
+                b, exact = bind_args(params, s0.node) if params is not None else ({}, False)
+                if not exact or pname not in b:
+                    return True
+    return False
